@@ -138,8 +138,9 @@ def build(cfg: Dict[str, Any], draw: int) -> Built:
                      lambda i: F.dropout(i["input"], p, tr), inp, ["input"], seed_rng=True)
     if op == "matmul":
         a, b, c = cfg["a"], cfg["b"], cfg["c"]
-        inp["left"] = randn(g, batch + [a, b], dt)
-        inp["right"] = randn(g, batch + [b, c], dt)
+        vec = cfg.get("vec")          # torch.matmul also takes 1-D operands: "left" = [b] @ [b, c], "right" = [a, b] @ [b], "both" = [b] @ [b]
+        inp["left"] = randn(g, [b] if vec in ("left", "both") else batch + [a, b], dt)
+        inp["right"] = randn(g, [b] if vec in ("right", "both") else batch + [b, c], dt)
         return Built(lambda i: U.matmul(i["left"], i["right"], **ckw), lambda i: torch.matmul(i["left"], i["right"]), inp, ["left", "right"])
     if op in ("linear", "linear_readout"):
         fi, fo = cfg["fan_in"], cfg["fan_out"]
@@ -208,21 +209,25 @@ def build(cfg: Dict[str, Any], draw: int) -> Built:
                      lambda i: F.embedding(i["input"], i["weight"].clone() if mn else i["weight"], pidx, mn), inp, ["weight"])
     if op == "scaled_dot_product_attention":
         s, d, h = cfg["seq"], cfg["d_head"], cfg.get("heads")
+        skv, dv = cfg.get("seq_kv", s), cfg.get("d_v", d)      # cross-attention: L != S ; value head size != query/key head size
         lead = batch + ([h] if h else [])
-        for n in ("query", "key", "value"):
-            inp[n] = randn(g, lead + [s, d], dt)
+        inp["query"] = randn(g, lead + [s, d], dt)
+        inp["key"] = randn(g, lead + [skv, d], dt)
+        inp["value"] = randn(g, lead + [skv, dv], dt)
         mult, causal = cfg["mult"], cfg.get("is_causal", False)
         mk = cfg.get("mask")
         mask = None
         if mk == "bool":
-            mask = torch.rand(s, s, generator=g) > 0.3
-            mask = mask | torch.eye(s, dtype=torch.bool)
+            mask = torch.rand(s, skv, generator=g) > 0.3
+            mask = mask | (torch.arange(s)[:, None] == torch.arange(skv)[None, :]) | (torch.arange(skv)[None, :] == 0)
         elif mk == "float":
-            mask = randn(g, [s, s], dt)
-        kw = {} if cfg.get("dropout_p") is None else {"dropout_p": cfg["dropout_p"]}
+            mask = randn(g, [s, skv], dt)
+        dp = cfg.get("dropout_p")
+        kw = {} if dp is None else {"dropout_p": dp}
+        # the documented temperature: logits = q.k * mult / (head size of QUERY and KEY), as PyTorch's own default uses q.size(-1)
         return Built(lambda i: U.scaled_dot_product_attention(i["query"], i["key"], i["value"], attn_mask=mask, is_causal=causal, mult=mult, **kw),
-                     lambda i: F.scaled_dot_product_attention(i["query"], i["key"], i["value"], attn_mask=mask, is_causal=causal, scale=mult / d),
-                     inp, ["query", "key", "value"])
+                     lambda i: F.scaled_dot_product_attention(i["query"], i["key"], i["value"], attn_mask=mask, is_causal=causal, scale=mult / d, **kw),
+                     inp, ["query", "key", "value"], seed_rng=bool(dp))
     if op == "cross_entropy":
         V = cfg["vocab"]
         B = cfg.get("batch_size")  # None -> 1-D logits
@@ -407,6 +412,9 @@ def configs(rng: random.Random, size: str) -> List[Dict[str, Any]]:
     for con in TERNARY + ["__default__"]:
         for bt in batches(rng, nb):
             C.append({"op": "matmul", "constraint": con, "batch": bt, "a": rng.choice([1, 2, 4]), "b": rng.choice([1, 3, 5]), "c": rng.choice([1, 2, 6])})
+        for vec in ("left", "right", "both"):
+            C.append({"op": "matmul", "constraint": con, "batch": [], "a": 1 if vec in ("left", "both") else rng.choice([2, 4]), "b": rng.choice([3, 5]),
+                      "c": 1 if vec in ("right", "both") else rng.choice([2, 6]), "vec": vec})
     for op in ("linear", "linear_readout"):
         for con in BINARY + ["__default__"]:
             for bt in batches(rng, nb):
@@ -444,6 +452,9 @@ def configs(rng: random.Random, size: str) -> List[Dict[str, Any]]:
                 for heads in (None, 2):
                     C.append({"op": "scaled_dot_product_attention", "batch": bt, "heads": heads, "seq": rng.choice([2, 3, 5]), "d_head": rng.choice([1, 2, 4]),
                               "mult": rng.choice(mults), "is_causal": causal, "mask": mk, "dropout_p": rng.choice([None, 0.0])})
+                    if not causal:     # cross-attention shapes (L != S), value head size != query/key head size, dropout
+                        C.append({"op": "scaled_dot_product_attention", "batch": bt, "heads": heads, "seq": rng.choice([2, 3]), "seq_kv": rng.choice([4, 7]), "d_head": rng.choice([2, 4]),
+                                  "d_v": rng.choice([1, 3, 8]), "mult": rng.choice(mults), "is_causal": False, "mask": mk, "dropout_p": rng.choice([None, 0.0, 0.25])})
     for red in ("mean", "sum"):
         for B in (None, 1, 2, 5):
             for nig in (0, 1, 2):
